@@ -131,12 +131,36 @@ Compare(e, i) ==
        ELSE TRUE
     /\ UNCHANGED <<broken, dropped>> /\ UNCHANGED pvars
 
+(* ---- C12: per-module comparisons made by the harness ------------------------ *)
+\* D_C12_enumeral_lookup: a bare enumeral (value assignment or DEFAULT of an ENUMERATED type) is
+\*   linked by searching the enumerated types of ALL modules, imported or not; the bindings of such
+\*   a definition therefore depend on which other modules are compiled with it
+ModCmp(e, i) ==
+    /\ IF e.same THEN TRUE
+       ELSE IF e.enum_sensitive
+            THEN IF "D_C12_enumeral_lookup" \in KnownDevs THEN Report(i, "DEVIATION", "D_C12_enumeral_lookup")
+                 ELSE Report(i, "MISMATCH", "C12: the bindings of an enumeral value change with the neighbouring modules (D_C12_enumeral_lookup, not a listed known finding)")
+            ELSE Report(i, "MISMATCH", "C12: the bindings of a module change with its neighbours: " \o e.ctx)
+    /\ UNCHANGED <<broken, dropped>> /\ UNCHANGED pvars
+\* each IMPORTS clause becomes a use declaration of exactly the imported symbols from the sibling module
+Uses(e, i) ==
+    /\ IF e.observed = e.expected THEN TRUE
+       ELSE Report(i, "MISMATCH", "C12: use declarations are not exactly the imported symbols")
+    /\ UNCHANGED <<broken, dropped>> /\ UNCHANGED pvars
+QualRef(e, i) ==
+    /\ IF e.found THEN TRUE
+       ELSE Report(i, "MISMATCH", "C12: a module-qualified reference does not resolve to super::<module>::<Type>")
+    /\ UNCHANGED <<broken, dropped>> /\ UNCHANGED pvars
+
 Step ==
     /\ l <= Len(Rec)
     /\ l' = l + 1
     /\ LET e == Rec[l] IN
        CASE e.ev = "input"   -> Input(e, l)
          [] e.ev = "compare" -> Compare(e, l)
+         [] e.ev = "modcmp"  -> ModCmp(e, l)
+         [] e.ev = "uses"    -> Uses(e, l)
+         [] e.ev = "qualref" -> QualRef(e, l)
          [] e.ev = "return"  -> Return(e, l)
          [] broken           -> UNCHANGED <<broken, dropped>> /\ UNCHANGED pvars
          [] e.ev = "lexed"   -> Lexed(e, l)
